@@ -281,3 +281,122 @@ Example add_fix_spec_raw_example :
   add_dt (fix_rd (raw 48)) (PD 2000 2 28) = Ok (PD 2000 3 1) /\
   spec_add_raw (raw 48) (PD 2000 2 28) = Some (PD 2000 3 1).
 Proof. vm_compute. repeat split; reflexivity. Qed.
+
+(* ---------------------------------------------------------------- the assert in __add__ is unreachable *)
+(* [assert 1 <= abs(self.months) <= 12] can only fail for |months| > 12, which _fix excludes: for
+   every delta with normalised fields (every constructed one) and EVERY operand the model raises
+   at most ValueError / OverflowError *)
+Definition benign (e : err) : Prop := e = EValue \/ e = EOverflow.
+
+Lemma stage_ym_no_assert d oy om : Z.abs (f_months (rel d)) <= 11 -> exists ym, stage_ym d oy om = Ok ym.
+Proof.
+  intros H. unfold stage_ym. destruct (f_months (rel d) =? 0) eqn:E; [eauto|].
+  destruct (negb _) eqn:A; [exfalso; lia|].
+  destruct (12 <? _); [eauto|]. destruct (_ <? 1); eauto.
+Qed.
+
+Theorem add_dt_errors_benign d o e : norm_rel (rel d) = true -> add_dt d o = Err e -> benign e.
+Proof.
+  intros N. rewrite add_dt_body. unfold add_body.
+  set (o' := if has_time d then promote o else o).
+  destruct (stage_ym_no_assert d (fst (ym_of o')) (snd (ym_of o'))) as (ym & ->);
+    [unfold norm_rel in N; lia|]. cbn [bind].
+  unfold benign.
+  destruct (stage_replace d o' (fst ym) (snd ym)) as [repl|e1] eqn:E1; cbn [bind].
+  - assert (TD : forall x, stage_td d (fst ym) (snd ym) = Err x -> x = EOverflow).
+    { unfold stage_td, mk_timedelta. intros x. destruct (_ && _); [discriminate|]. intros H; injection H as <-; reflexivity. }
+    destruct (stage_td d (fst ym) (snd ym)) as [t|e2] eqn:E2; cbn [bind].
+    + assert (AD : forall a u x, dt_add_us a u = Err x -> x = EOverflow).
+      { intros a u x. unfold dt_add_us. destruct a; destruct (_ && _); try discriminate;
+        intros H; injection H as <-; reflexivity. }
+      destruct (dt_add_us repl t) as [ret|e3] eqn:E3; cbn [bind].
+      * unfold stage_wd. destruct (wd d) as [[w n]|]; [|discriminate].
+        cbv zeta. unfold mk_timedelta. destruct (_ && _); cbn [bind].
+        -- intros H. right. eapply AD; exact H.
+        -- intros H; injection H as <-; auto.
+      * intros H; injection H as <-. right. eapply AD; exact E3.
+    + intros H; injection H as <-. right. apply TD. reflexivity.
+  - intros H; injection H as <-. unfold stage_replace in E1.
+    destruct (negb ((1 <=? snd ym) && (snd ym <=? 12))); [injection E1 as <-; auto|].
+    destruct o'.
+    + destruct (negb _); [injection E1 as <-; auto|]. destruct (valid_ymd _ _ _); [discriminate|].
+      injection E1 as <-; auto.
+    + destruct (negb _); [injection E1 as <-; auto|]. destruct (_ && _); [discriminate|].
+      injection E1 as <-; auto.
+Qed.
+
+(* ---------------------------------------------------------------- results stay in the domain *)
+Lemma ymd_of_ord_valid n : 1 <= n <= max_ord ->
+  valid_ymd (fst (fst (ymd_of_ord n))) (snd (fst (ymd_of_ord n))) (snd (ymd_of_ord n)) = true.
+Proof.
+  intros H. pose proof (ord_of_ymd_of_ord n) as O. unfold ymd_of_ord in *.
+  pose proof (year_of_ord_spec n) as S. set (y := year_of_ord n) in *.
+  cbn [fst snd] in *. destruct O as (_ & Hm & Hd).
+  assert (Hy : 1 <= y <= 9999).
+  { split.
+    - destruct (Z_le_gt_dec 1 y) as [G|G]; [exact G|].
+      pose proof (days_before_year_mono (y + 1) 1 ltac:(lia)). change (days_before_year 1) with 0 in *. lia.
+    - destruct (Z_le_gt_dec y 9999) as [G|G]; [exact G|].
+      pose proof (days_before_year_mono 10000 y ltac:(lia)).
+      change (days_before_year 10000) with 3652059 in *. unfold max_ord in H. lia. }
+  unfold valid_ymd. lia.
+Qed.
+
+Lemma valid_date_of_ord n : 1 <= n <= max_ord -> valid_dt (date_of_ord n) = true.
+Proof.
+  intros H. pose proof (ymd_of_ord_valid n H) as V. unfold date_of_ord.
+  destruct (ymd_of_ord n) as [[y m] d]. exact V.
+Qed.
+
+Lemma valid_dt_of_lin l : 0 <= l < lin_max_dt -> valid_dt (dt_of_lin l) = true.
+Proof.
+  intros H. unfold dt_of_lin.
+  assert (R : 1 <= l / us_day + 1 <= max_ord) by (unfold lin_max_dt, max_ord, us_day in *; lia).
+  pose proof (ymd_of_ord_valid _ R) as V.
+  destruct (ymd_of_ord (l / us_day + 1)) as [[y m] d]. cbn [fst snd] in V. cbn [valid_dt]. rewrite V.
+  unfold valid_time, us_day, us_sec. lia.
+Qed.
+
+Lemma dt_add_us_valid o t r : dt_add_us o t = Ok r -> valid_dt r = true.
+Proof.
+  unfold dt_add_us. destruct o;
+  match goal with |- (if ?c then _ else _) = _ -> _ => destruct c eqn:E end; try discriminate;
+  intros H; injection H as <-; [apply valid_date_of_ord | apply valid_dt_of_lin];
+  cbn [lin] in E |- *; lia.
+Qed.
+
+(* whatever the model of __add__ returns is again a valid date / datetime *)
+Theorem add_dt_valid d o r : add_dt d o = Ok r -> valid_dt r = true.
+Proof.
+  rewrite add_dt_body. unfold add_body. intros H.
+  apply bind_ok in H. destruct H as (ym & _ & H).
+  apply bind_ok in H. destruct H as (repl & _ & H).
+  apply bind_ok in H. destruct H as (t & _ & H).
+  apply bind_ok in H. destruct H as (ret & H2 & H3).
+  unfold stage_wd in H3. destruct (wd d) as [[w n]|].
+  - apply bind_ok in H3. destruct H3 as (t' & _ & H3). eapply dt_add_us_valid; exact H3.
+  - injection H3 as <-. eapply dt_add_us_valid; exact H2.
+Qed.
+
+(* the time line used by model and spec is a faithful coordinate system *)
+Theorem timeline_faithful :
+  (forall l, lin (dt_of_lin l) = l) /\ (forall n, lin (date_of_ord n) = n) /\
+  (forall o, valid_dt o = true -> at_lin o (lin o) = Some o).
+Proof. split; [exact lin_dt_of_lin|]. split; [exact lin_date_of_ord | exact at_lin_self]. Qed.
+
+(* ---------------------------------------------------------------- the counting specification, declaratively *)
+(* the n-th day of weekday w on or after o is THE day of weekday w in the window
+   [o + 7(n-1), o + 7(n-1) + 6] (any 7 consecutive days contain exactly one), symmetrically for
+   n < 0: so the counting definition of step 4 means what the documentation says *)
+Theorem nth_weekday_char o w n t : 0 <= w <= 6 -> n <> 0 -> nth_weekday o w n = Some t ->
+  weekday_of_ord t = w /\
+  (0 < n -> o + 7 * (n - 1) <= t <= o + 7 * (n - 1) + 6) /\
+  (n < 0 -> o - 7 * (- n - 1) - 6 <= t <= o - 7 * (- n - 1)).
+Proof.
+  intros Hw Hn H. rewrite nth_weekday_jump in H by assumption. injection H as <-.
+  unfold jump_days, weekday_of_ord. destruct (0 <? n) eqn:E; lia.
+Qed.
+
+Lemma weekday_unique_in_window a t1 t2 :
+  a <= t1 <= a + 6 -> a <= t2 <= a + 6 -> weekday_of_ord t1 = weekday_of_ord t2 -> t1 = t2.
+Proof. unfold weekday_of_ord. lia. Qed.
